@@ -27,6 +27,8 @@ ASSUMPTIONS = [
     'give unbounded log-log slopes that no published method defines)',
     'the BFFM2 NOx fit is the single log-log least-squares line the source documents',
     'MEEM has no independent reference: only finite / non-negative / linear-scaling checks',
+    'HC/CO certification data have an idle->approach log-log slope within +-12 (real engines '
+    '-1..-4): steeper data overflow at very small fuel flows in any floating-point implementation',
 ]
 SHARD_TIMEOUT = {'quick': 600, 'thorough': 3600}
 LEVEL_TEXT = ('Exploration: differential runtime check of every EI / atmosphere building '
@@ -241,6 +243,10 @@ def run_shard(spec, rec):
                 eih['approach'] = eih['idle'] * rng.uniform(1.0, 5.0)
             elif shape < 0.6:     # steeply falling: intercept beyond climb flow
                 eih['approach'] = eih['idle'] * 10 ** rng.uniform(-2.5, -0.05)
+            den_ = abs(math.log10(ff_cal['approach'] / ff_cal['idle']))
+            num_ = math.log10(eih['approach'] / eih['idle'])
+            if den_ > 0 and abs(num_) > 12 * den_:     # see ASSUMPTIONS: slope within +-12
+                eih['approach'] = eih['idle'] * 10 ** math.copysign(12 * den_, num_)
             ffs = [rng.uniform(0, 1.5 * to_flow) for _ in range(4)]
             ffs += [ff_cal['idle'] * rng.uniform(0.05, 0.999), ff_cal['idle'], ff_cal['climb']]
             if rng.random() < 0.3:
